@@ -150,6 +150,29 @@ def run(chk):
         _, sl, _ = vlib.run_pair(None, w, scases, timeout=3000)
         ndis += check_lines(chk, 'search', scases, sl, [None] * len(scases), classes, {})
         total += len(scases)
+    # --- the glyph-attribute store: graphite2::sparse built from arbitrary (key, value) pairs against the extracted model
+    from props import apiseq
+    ahexe = apiseq.build('asan'); smexe = vlib.build_model_driver('Sparse')
+    spcases = []
+    for i in range(30000 if thorough else 3000):
+        n = rng.choice((0, 1, 2, 5, 20, 60))
+        keys = sorted(rng.sample(range(0, rng.choice((50, 100, 300, 3000, 65536))), min(n, 50)))
+        if rng.random() < 0.15 and len(keys) > 1:
+            j = rng.randrange(len(keys) - 1); keys[j + 1] = keys[j] if rng.random() < 0.5 else max(0, keys[j] - 1)     # not increasing: the store must stay null
+        ps = [(k, rng.choice((0, 1, 5, 65535, rng.randrange(65536)))) for k in keys]
+        q = [rng.choice(keys) if keys and rng.random() < 0.5 else rng.choice((0, 47, 48, 49, 95, 96, 65535, rng.randrange(65536))) for _ in range(12)]
+        spcases.append('sp%d sparse %s %s' % (i, ','.join('%d:%d' % p for p in ps) or '-', ','.join(map(str, q))))
+    sml, sil, _ = vlib.run_pair(smexe, ahexe, spcases, timeout=2400)
+    for c, i, m in zip(spcases, sil, sml):
+        if i is None or m is None:
+            chk.tie_break('harness', 'no result line', c[:200]); continue
+        if 'ABORT' in i.split()[1:3]:
+            chk.violation('c02:sparse-abort:%s' % c.split()[2][:100], 'graphite2::sparse read outside its array: %s' % i[:300], dict(case=c, got=i[:600], tag='sparse')); continue
+        if i != m:
+            ndis += 1
+            chk.tie_break('correspondence:sparse', 'graphite2::sparse and Model/SparseModel.v disagree: impl %s model %s' % (i[:200], m[:200]), c[:300])
+        classes.add(('sparse', i.split()[2], min(len(c.split()[2]) // 40, 5)))
+    total += len(spcases)
     # --- compiled GDL-lite programs that insert heavily: the growth cap and the insert budget at work
     from props import fontkit as K, cmapgen, c06
     gdir = os.path.join(vlib.BUILD, 'fuzzfonts', 'c02g-%s-%d' % (chk.tier, chk.seed))
@@ -272,6 +295,11 @@ def replay(chk, obj):
         fp = os.path.join(tmp, 'replay.ttf')
         open(fp, 'wb').write(zlib.decompress(base64.b64decode(rp['font_hex_gz'])))
         f = case.split(); f[2] = fp; case = ' '.join(f)
+    if case.split()[1] == 'sparse':
+        from props import apiseq
+        ml, il, _ = vlib.run_pair(vlib.build_model_driver('Sparse'), apiseq.build('asan'), [case], shards=1)
+        print(case[:300]); print(' impl :', il[0]); print(' model:', ml[0])
+        return 0 if il[0] == ml[0] and il[0] and 'ABORT' not in il[0] else 1
     if rp.get('tag') == 'vmslot' or case.split()[1] == 'vmslot':
         hexe = vlib.build_harness('impl_vmslot', vlib.build_impl('direct', 'asan1'), san='asan1')
         w = os.path.join(os.path.dirname(hexe), 'run_vmslot.sh')
